@@ -37,8 +37,8 @@ theorem then_lt (a b : Nat) (o : Ordering) :
   rcases Nat.lt_trichotomy a b with h | h | h
   · have : compare a b = .lt := Nat.compare_eq_lt.2 h
     simp [this, h]
-  · have : compare a b = .eq := Nat.compare_eq_eq.2 h
-    simp [this, h]
+  · have hc : compare a b = .eq := Nat.compare_eq_eq.2 h
+    rw [hc]; simp [h]
   · have hc : compare a b = .gt := Nat.compare_eq_gt.2 h
     rw [hc]; simp; omega
 
